@@ -243,7 +243,17 @@ fn interop<S: Scheme>(ctx: &mut Ctx, w: &World<S>, desc: &Value, rng: &mut ChaCh
         Err(o) => return ctx.violated("honest-pipeline-refused", "trim", desc.clone(), json!({"outcome": o.json(), "supported": sup2})),
     };
     let deg = below(rng, cfg.supported_degree + 1);
-    let p: LPoly<S> = LabeledPolynomial::new("p".into(), S::gen_poly(cfg, Shape::Full, deg, rng), None, None);
+    // with enforced bounds: re-trim with the same bound list and commit under one of them
+    let usable: Vec<usize> = usable_bounds::<S>(cfg).into_iter().filter(|b| *b >= deg && *b <= cfg.supported_degree).collect();
+    let (vk2, bound) = if S::BOUNDS && S::NAME != "ipa" && !usable.is_empty() && rng.next_u32() % 2 == 0 {
+        match attempt(|| PcOf::<S>::trim(&w.pp, sup2, cfg.supported_hiding, cfg.enforced.as_deref())) {
+            Ok((_, v)) => (v, Some(usable[below(rng, usable.len())])),
+            Err(_) => (vk2, None),
+        }
+    } else {
+        (vk2, None)
+    };
+    let p: LPoly<S> = LabeledPolynomial::new("p".into(), S::gen_poly(cfg, Shape::Full, deg, rng), bound, None);
     let c = match commit::<S>(&w.ck, std::slice::from_ref(&p), rng.next_u64()) {
         Ok(c) => c,
         Err(_) => return ctx.skipped("keys-interoperate", "commit refused"),
@@ -257,7 +267,7 @@ fn interop<S: Scheme>(ctx: &mut Ctx, w: &World<S>, desc: &Value, rng: &mut ChaCh
         Err(_) => return ctx.skipped("keys-interoperate", "open refused"),
     };
     let o = check::<S>(&vk2, &[&c.comms[0]], &z, &[v], &proof, &mut crate::probe::sponge::<FOf<S>>(b"c09"), 4);
-    ctx.check(o == Out::Accept, "keys-interoperate", "check", desc.clone(), || json!({"outcome": o.json(), "second_supported": sup2}));
+    ctx.check(o == Out::Accept, "keys-interoperate", "check", desc.clone(), || json!({"outcome": o.json(), "second_supported": sup2, "degree_bound": bound}));
 }
 
 fn sonic<E: Pairing + CurveTag>(ctx: &mut Ctx, rng: &mut ChaCha20Rng)
